@@ -63,7 +63,29 @@ func EqualsIgnoreCase(str1, str2 string) bool {
 
 // HasPrefixIgnoreCase checks if str is stared with prefix in case-insensitive mode.
 func HasPrefixIgnoreCase(str, prefix string) bool {
-	return strings.HasPrefix(strings.ToLower(str), strings.ToLower(prefix))
+	// Compare byte by byte, folding ASCII letters only. Lower-casing both
+	// strings first is not equivalent: Unicode case mapping can change the
+	// byte length (e.g. U+212A KELVIN SIGN becomes "k"), so the caller could
+	// no longer rely on str having at least len(prefix) bytes, and hosts that
+	// differ by such characters would be treated as equal.
+	if len(str) < len(prefix) {
+		return false
+	}
+
+	for i := 0; i < len(prefix); i++ {
+		a, b := str[i], prefix[i]
+		if 'A' <= a && a <= 'Z' {
+			a += 'a' - 'A'
+		}
+		if 'A' <= b && b <= 'Z' {
+			b += 'a' - 'A'
+		}
+		if a != b {
+			return false
+		}
+	}
+
+	return true
 }
 
 // CharCount returns number of char in str.
